@@ -605,6 +605,16 @@ def _oracle_bytes(c, out):
         out.append(("slice-eq-struct", {"problems": probs[:6], "slice": _short(o2), "struct": _short(o0)}))
 
 
+def _consistent(c):
+    """the op lines must still be the ones generated from the meta data"""
+    m = c.meta
+    if m.get("k") == "val":
+        return c.lines == value_case(m["t"], m["f"], unhex(m["tail"])).lines
+    if m.get("k") == "bytes":
+        return c.lines == bytes_case(m["t"], unhex(m["data"])).lines
+    return False
+
+
 def oracle(c):
     out = []
     try:
@@ -612,6 +622,8 @@ def oracle(c):
             if o is None or o == "panic" or o == "bad-op" or str(o).startswith("fault("):
                 out.append(("no-panic", {"impl": [_short(x) for x in c.impl]}))
                 return out
+        if not _consistent(c):
+            return []  # lines no longer describe one value / one byte string (shrinker artefact)
         if c.meta.get("k") == "val":
             _oracle_value(c, out)
         elif c.meta.get("k") == "bytes":
